@@ -744,6 +744,15 @@ impl Serialize for Filter {
         if let Some(lcs) = &self.lifecycles {
             state.serialize_field("lifecycles", &lcs)?;
         }
+        if let Some((verb_mstp_mtin, mask)) = &self.verb_mstp_mtin {
+            // written so that from_json derives the same mask again:
+            // mask for mstp only -> "mstp", otherwise the full value (mtin 0 = any mtin)
+            if *mask == (0x07u8 << 1) {
+                state.serialize_field("mstp", &((verb_mstp_mtin >> 1) & 0x07u8))?;
+            } else {
+                state.serialize_field("verb_mstp_mtin", verb_mstp_mtin)?;
+            }
+        }
         state.end()
     }
 }
